@@ -199,6 +199,13 @@ def run_case(sim, seed, i):
         if must_fail and not failed:
             return ({"class": "invalid_package_accepted", "location": desc["location"], "wrote": len(muts) > 0},
                     dict(ctx, expect="fail"))
+        said_error = any(l.lstrip().startswith(("\x1b[31mERR", "ERR ", "\x1b[31mFTL", "FTL ", "\x1b[31mPNC", "PNC ")) for l in (res.get("stderr") or "").split("\n"))
+        if said_error and not failed and (muts or before != after):
+            # the tool itself reported an error (an ERR line of its own log) and went on to write output with exit status 0
+            w = (muts[0]["op"] + " " + muts[0]["path"]) if muts else "tree differs"
+            err_line = next(l for l in res["stderr"].split("\n") if "ERR" in l or "FTL" in l or "PNC" in l)
+            return ({"class": "error_reported_but_output_written", "location": ctx.get("location", desc["location"]), "first": w.replace("/w/", "")[:120]},
+                    dict(ctx, expect="fail", error_line=err_line[:300]))
         if failed and (muts or before != after):
             w = (muts[0]["op"] + " " + muts[0]["path"]) if muts else "tree differs"
             return ({"class": "output_touched_despite_error", "location": ctx.get("location", desc["location"]), "first": w.replace("/w/", "")[:160]},
@@ -272,6 +279,9 @@ def replay(sim, doc):
         return False, "process died: " + res.get("stderr_tail", "")[-300:]
     failed = res["exit_code"] != 0 or res["status"] != "returned"
     muts = mutations_under(res["ops"], doc["outs"])
+    if doc["violation"]["class"] == "error_reported_but_output_written":
+        said = any(l.lstrip().startswith(("\x1b[31mERR", "ERR ", "\x1b[31mFTL", "FTL ", "\x1b[31mPNC", "PNC ")) for l in (res.get("stderr") or "").split("\n"))
+        return (said and not failed and bool(muts)), "exit=%s mutations=%d error_reported=%s" % (res["exit_code"], len(muts), said)
     if doc["violation"]["class"] == "invalid_package_accepted":
         return (not failed), "exit=%s mutations=%d" % (res["exit_code"], len(muts))
     return failed and bool(muts), "exit=%s mutations=%d first=%s" % (res["exit_code"], len(muts), muts[:1])
